@@ -14,6 +14,7 @@ from symex.values import Ctx, unwrap
 from symex.ob import (eq, ne, le, lt, ge, gt, And, Or, Not, Implies, Iff, const, ite, absv, maxv, minv, R,
                       sumv, isinf, veq)
 
+R_ = R
 INF = float('inf')
 BIG = 10 ** 6
 
